@@ -123,7 +123,7 @@ theorem ci_withMaxdepth {env : Env} {lt : Node → Node → Prop} {s : St} (h : 
    fun n v hl hin => by
      obtain ⟨tr, hc⟩ := h.certs n v hl hin
      exact ⟨tr, ⟨replay_congr env (env.withMaxdepth k) tr n.1 _ v hc.replay
-       (fun ev _ => by cases ev <;> simp [Stable, Env.withMaxdepth]), hc.noneOK, hc.events⟩⟩,
+       (fun ev _ => by cases ev <;> simp [Stable, Env.withMaxdepth]), hc.noneOK, hc.events, hc.just⟩⟩,
    ⟨h.alive.nodes, h.alive.stack, h.alive.objs⟩, h.rgHeld⟩
 
 /-- one operation on the definitions and the mechanism state, in modelx's order: the clearing
